@@ -13,6 +13,8 @@ from .. import core
 from ..util import CountingIter, exc_name
 
 NONE = -1000
+# flow values that an implementation might confuse with "no value": identity is compared
+ODD_VALUES = [0, None, False, "", (), 0.0, [], {}, None, StopIteration, float("nan")]
 
 
 def _py(x):
@@ -43,6 +45,20 @@ def replay_slice(ctx, rec, lena):
             bad = True
             ctx.violation("Slice.run:branch=%s" % rec["branch"],
                           {"args": repr(args), "n": n, "expected": expected, "observed": out})
+        elif args == (a, b, s) and n:
+            # "every finite flow": the values are arbitrary objects (None and other falsy values included);
+            # the slice must consist of the very objects at the selected positions
+            objs = [ODD_VALUES[i % len(ODD_VALUES)] for i in range(n)]
+            try:
+                out2 = list(lena.flow.Slice(*args).run(iter(objs)))
+                same = len(out2) == len(expected) and all(x is objs[i] for x, i in zip(out2, expected))
+            except Exception as exc:       # noqa
+                out2, same = "raised " + exc_name(exc), False
+            if not same:
+                bad = True
+                ctx.violation("Slice.run:odd-values:branch=%s" % rec["branch"],
+                              {"args": repr(args), "flow": repr(objs), "expected_positions": expected,
+                               "observed": repr(out2)})
         # fill_into route for non-negative arguments
         if rec["fillstop"] != "na":
             el = lena.flow.Slice(*args)
@@ -110,21 +126,23 @@ def replay_iter(ctx, rec, lena):
 
 
 def bad_steps(ctx, lena):
-    """Other steps are rejected with LenaValueError at construction."""
+    """Other steps are rejected with LenaValueError at construction, whatever start and stop are."""
     n = 0
+    rng = [None] + list(range(-7, 8))
     for step in (0, -1, -3, 2.5):
-        for a, b in ((None, 3), (1, 4), (None, -2), (-3, None), (-4, -1), (2, -1), (-3, 5)):
-            n += 1
-            try:
-                lena.flow.Slice(a, b, step)
-                res = "accepted"
-            except lena.core.LenaValueError:
-                res = "LenaValueError"
-            except Exception as exc:    # noqa
-                res = exc_name(exc)
-            ctx.case(["badstep", a, b, step])
-            if res != "LenaValueError":
-                ctx.violation("Slice.__init__:bad-step:%s" % res, {"args": [a, b, step], "observed": res})
+        for a in rng:
+            for b in rng:
+                n += 1
+                try:
+                    lena.flow.Slice(a, b, step)
+                    res = "accepted"
+                except lena.core.LenaValueError:
+                    res = "LenaValueError"
+                except Exception as exc:    # noqa
+                    res = exc_name(exc)
+                ctx.case(["badstep", a, b, step])
+                if res != "LenaValueError":
+                    ctx.violation("Slice.__init__:bad-step:%s" % res, {"args": [a, b, step], "observed": res})
     return n
 
 
@@ -173,10 +191,20 @@ def run(ctx):
                     except lena.core.LenaStopFill:
                         stop = i
                         break
+                    except Exception as exc:     # noqa
+                        ctx.violation("Slice.fill_into:random:raised:" + exc_name(exc), {"args": repr(args), "n": n})
+                        stop = None
+                        break
+                if stop is None:
+                    continue
                 trace.append({"op": "fill", "a": a, "b": b, "s": s, "n": n,
                               "filled": sink.group, "stop": stop})
                 continue
-        out = list(lena.flow.Slice(*args).run(iter(range(n))))
+        try:
+            out = list(lena.flow.Slice(*args).run(iter(range(n))))
+        except Exception as exc:     # noqa
+            ctx.violation("Slice.run:random:raised:" + exc_name(exc), {"args": repr(args), "n": n})
+            continue
         trace.append({"op": "run", "a": a, "b": b, "s": s, "n": n, "out": out})
     acc = ctx.validate("Trace_Slice", "Trace_Slice.cfg", trace)
     ctx.traces += acc
@@ -188,13 +216,14 @@ def run(ctx):
         ctx.violation("Trace_Slice:%s:rejected" % r["op"], {"record": r, "index": acc})
     ctx.sample({"recorded_trace_record": trace[1]})
     # binding demonstration: a corrupted record must be rejected exactly there
-    bad = [dict(r) for r in trace[:50]]
-    k = next(i for i, r in enumerate(bad) if r["op"] == "run" and r["out"])
-    bad[k] = dict(bad[k], out=bad[k]["out"][:-1])
-    acc2 = ctx.validate("Trace_Slice", "Trace_Slice.cfg", bad, label="corrupt")
-    if acc2 != k:
-        raise core.MachineryError("trace spec does not bind: corrupted record %d, accepted %d" % (k, acc2))
-    ctx.extra["binding_demo"] = "corrupted record %d of 50 rejected at index %d" % (k, acc2)
+    if acc == len(trace) and not ctx.violations:
+        bad = [dict(r) for r in trace[:50]]
+        k = next(i for i, r in enumerate(bad) if r["op"] == "run" and r["out"])
+        bad[k] = dict(bad[k], out=bad[k]["out"][:-1])
+        acc2 = ctx.validate("Trace_Slice", "Trace_Slice.cfg", bad, label="corrupt")
+        if acc2 != k:
+            raise core.MachineryError("trace spec does not bind: corrupted record %d, accepted %d" % (k, acc2))
+        ctx.extra["binding_demo"] = "corrupted record %d of 50 rejected at index %d" % (k, acc2)
     return ctx.finish(
         rule="S2C: every (start, stop, step, n) of the bounded Slice model and every Iterators scenario, "
              "non-trivial = flow not empty; C2S: seeded random Slice runs/fills outside the bounds",
